@@ -10,8 +10,9 @@ SCALES = [0.03125, 0.25, 1.0]
 
 
 class FakeTime:
-    def __init__(self, q, env):
+    def __init__(self, q, env, shift=0):
         self.q = q
+        self.shift = shift   # origin of the wall clock (the property does not depend on it; 0.0 is a value like any other)
         self.mono = 0.0      # quanta
         self.off = 10.0
         self.env = list(env)
@@ -21,7 +22,7 @@ class FakeTime:
 
     def time(self):
         self.reads += 1
-        return (self.mono + self.off) * self.q
+        return (self.mono + self.off + self.shift) * self.q
 
     def take(self, kind):
         if self.env and self.env[0]["a"] == kind:
@@ -42,11 +43,16 @@ class FakeTime:
         self.off -= j
 
 
-def replay(beh, q):
+def replay(beh, q, zero_at=0):
+    """zero_at = k > 0: the wall clock's origin is placed so that the deadline of cycle k is exactly 0.0"""
     from hio.base import doing
     from hio.help import timing
     n = len(beh["starts"])
-    ft = FakeTime(q, beh["env"])
+    shift = 0
+    if zero_at:
+        pre0 = next(e for e in beh["env"] if e["a"] == "pre")
+        shift = -(10 + pre0["dt"] - pre0["j"] + zero_at * pre0["tock"])
+    ft = FakeTime(q, beh["env"], shift)
     old = (doing.time, timing.time)
     doing.time = timing.time = ft
     starts, ends = [], []
@@ -115,7 +121,7 @@ def judge(b, real):
 def replay_case(ctx, case):
     b = case["behaviour"]
     b.setdefault("init_tock", b.get("itock"))
-    bad, div = judge(b, replay(b, case.get("q", 0.25)))
+    bad, div = judge(b, replay(b, case.get("q", 0.25), case.get("zero_at", 0)))
     if div:
         print("note:", div)
     return [bad] if bad else []
@@ -145,13 +151,15 @@ def run(ctx):
     for i, b in enumerate(behs):
         b["init_tock"] = b["itock"]
         qq = SCALES[(i + ctx.seed) % len(SCALES)]
-        real = replay(b, qq)
+        zero_at = (i % 4) if i % 2 else 0          # half of the runs: the deadline of cycle 1, 3 (or 1..3) is wall clock 0.0
+        real = replay(b, qq, zero_at)
         ctx.traces += 1
         jumps = sum(1 for e in b["env"] if e["j"] > 0)
         ctx.case(str(b["env"]), {"env": b["env"], "starts": b["starts"]} if i % 501 == 7 else None)
         bad, div = judge(b, real)
         if bad:
-            ctx.violation(bad, {"behaviour": b, "real": real, "q": qq})
+            ctx.violation(bad + (" [wall clock origin: deadline of cycle %d is 0.0]" % zero_at if zero_at else ""),
+                          {"behaviour": b, "real": real, "q": qq, "zero_at": zero_at})
         elif div:
             divergences.append(div)
     if divergences:
